@@ -179,6 +179,33 @@ fn main() {
             emit("fault_closed", json!({"f": f, "why": "client reset"}));
             health(addr).await;
         }
+        // 1c. descriptor exhaustion: with the limit lowered, connections are held open until nothing more can be
+        // opened (accept() on the server side fails with EMFILE meanwhile); once they are released the server
+        // must be answering again.
+        for round in 0..(if thorough { 4 } else { 2 }) {
+            f += 1;
+            let mut old = libc::rlimit { rlim_cur: 0, rlim_max: 0 };
+            unsafe { libc::getrlimit(libc::RLIMIT_NOFILE, &mut old) };
+            let lowered = libc::rlimit { rlim_cur: 160.min(old.rlim_cur), rlim_max: old.rlim_max };
+            unsafe { libc::setrlimit(libc::RLIMIT_NOFILE, &lowered) };
+            emit("fault", json!({"f": f, "kind": "fd_exhaustion", "len": 0, "end": "hold", "detail": {"limit": lowered.rlim_cur, "round": round}}));
+            let mut held = vec![];
+            let mut failures = 0;
+            while failures < 20 && held.len() < 400 {
+                match tokio::time::timeout(Duration::from_millis(300), TcpStream::connect(addr)).await {
+                    Ok(Ok(s)) => held.push(s),
+                    _ => failures += 1,
+                }
+            }
+            tokio::time::sleep(Duration::from_millis(400)).await;
+            let n = held.len();
+            drop(held);
+            unsafe { libc::setrlimit(libc::RLIMIT_NOFILE, &old) };
+            // the accept loop backs off for 100 ms after such an error
+            tokio::time::sleep(Duration::from_millis(400)).await;
+            emit("fault_closed", json!({"f": f, "why": format!("released {} held connections", n)}));
+            health(addr).await;
+        }
         // 2. random bytes
         for i in 0..(if thorough { 400 } else { 80 }) {
             f += 1;
